@@ -373,10 +373,12 @@ impl Scanner {
     fn skip_whitespace(&mut self) {
         loop {
             match self.ch {
-                ' ' | '\t' => {
+                // a carriage return is plain whitespace: counting it as well
+                // would number every line of a CRLF file twice
+                ' ' | '\t' | '\r' => {
                     self.read_char();
                 }
-                '\n' | '\r' => {
+                '\n' => {
                     self.line += 1;
                     self.read_char();
                 }
